@@ -241,6 +241,12 @@ def _borrowed(an: Analysis) -> None:
     # C03.6: a scope's state is resolved where the scope is *entered*: a stream's scope is built where the stream is created and
     # entered where it is consumed - resolved at construction, the creator's state would be installed over the consumer's between items
     borrow(an, c03.check, {"C03.6": "C11.9"})
+    from . import c18
+
+    # C18.1: a function that takes the caller's *args / **kwargs next to named parameters of its own (the stream body moved to a
+    # module-level function taking `scope, source, *args, **kwargs`) must take its own ones positional-only - otherwise a generator
+    # called with a keyword of that name fails with TypeError instead of yielding its items
+    borrow(an, c18.check, {"C18.1": "C11.10"}, keep=lambda f: "context.access" in f.at)
 
 
 def _anc(n: ast.AST):
